@@ -4,11 +4,13 @@
    and the GENERAL TXT round trip (Link/TxtRound.v): for every well-formed multigraph, every sorted list of representable names (name_ok),
    every integer divisor / firing script and every consistent orientation state, reading what the writer wrote returns the same object -
    no bound on sizes, multiplicities or chip counts.
-   Not modelled in Coq: the dict / JSON layer (Python's json module and the dynamic typing of from_dict) and file I/O - tied by the
-   correspondence run and its exhaustive fault enumeration only (declared partial). *)
+   The dictionary forms (to_dict / from_dict on well-typed dictionaries, Model/DictForm.v) are modelled too: from_dict (to_dict x) = x for all four
+   kinds of object, and from_dict of any well-typed dictionary is None or a well-formed object (Link/DictRound.v).
+   Not modelled in Coq: Python's json text codec, the dynamic typing of ill-typed dictionaries (a string where a list is expected, ...) and file
+   I/O - tied by the correspondence run and its exhaustive fault enumeration only (declared partial). *)
 From Coq Require Import ZArith NArith List Bool.
 Import ListNotations.
-From CF Require Import ListAux Core Machines Txt MachinesLink OrientLink OrientRound TxtLink TxtLines TxtRound.
+From CF Require Import ListAux Core Machines Txt DictForm MachinesLink OrientLink OrientRound TxtLink TxtLines TxtRound DictRound.
 Open Scope Z_scope.
 
 Definition C15_txt_roundtrip_full_statement : Prop :=
@@ -34,6 +36,28 @@ Theorem C15_txt_roundtrip_orientation : forall names g o, wfb g = true -> length
     oinv g o' /\ dir o' = dir o /\ inc o' = inc o /\ outc o' = outc o.
 Proof. exact read_orientation_write_orientation. Qed.
 Print Assumptions C15_txt_roundtrip_orientation.
+
+(* ---- dictionary forms ---- *)
+Theorem C15_dict_roundtrip_graph : forall names g, wfb g = true -> length names = nv g -> sort_names names = names ->
+  exists s, graph_from_dict (graph_to_dict names g) = Some (names, s) /\ ginv s /\ adj s = g.
+Proof. exact graph_dict_roundtrip. Qed.
+Print Assumptions C15_dict_roundtrip_graph.
+Theorem C15_dict_roundtrip_divisor : forall names g D, wfb g = true -> length names = nv g -> sort_names names = names -> length D = nv g ->
+  exists s, divisor_from_dict (divisor_to_dict names g D) = Some (names, s, D) /\ ginv s /\ adj s = g.
+Proof. exact divisor_dict_roundtrip. Qed.
+Print Assumptions C15_dict_roundtrip_divisor.
+Theorem C15_dict_roundtrip_script : forall names g sc, wfb g = true -> length names = nv g -> sort_names names = names -> length sc = nv g ->
+  exists s, script_from_dict (script_to_dict names g sc) = Some (names, s, sc) /\ ginv s /\ adj s = g.
+Proof. exact script_dict_roundtrip. Qed.
+Print Assumptions C15_dict_roundtrip_script.
+Theorem C15_dict_roundtrip_orientation : forall names g o, wfb g = true -> length names = nv g -> sort_names names = names -> oinv g o -> oedges g o ->
+  exists s o', orientation_from_dict (orientation_to_dict names g o) = Some (names, s, o') /\ ginv s /\ adj s = g /\
+    oinv g o' /\ dir o' = dir o /\ inc o' = inc o /\ outc o' = outc o.
+Proof. exact orientation_dict_roundtrip. Qed.
+Print Assumptions C15_dict_roundtrip_orientation.
+Theorem C15_graph_from_dict_total : forall d, graph_from_dict d = None \/ exists names gs, graph_from_dict d = Some (names, gs) /\ ginv gs /\ gn gs = length names.
+Proof. exact graph_from_dict_total. Qed.
+Print Assumptions C15_graph_from_dict_total.
 
 Theorem C15_read_graph_total : forall s, read_graph s = None \/ exists names gs, read_graph s = Some (names, gs) /\ ginv gs /\ gn gs = length names.
 Proof. exact read_graph_total. Qed.
